@@ -132,8 +132,9 @@ def app_class():
 
 
 class Client(object):
-    def __init__(self, world, phone, modules=None, props=None, generation=0):
+    def __init__(self, world, phone, modules=None, props=None, generation=0, wiring=None):
         self.world = world
+        self.wiring = wiring or world.wiring
         self.phone = phone
         self.jid = "%s@%s" % (phone, S_NET)
         self.generation = generation
@@ -169,9 +170,13 @@ class Client(object):
         self.profile = YowProfile(name)
         self.app = app_class()()
         self.app.client = self
-        layers = (YowNetworkLayer, YowCoderLayer, YowLoggerLayer, AxolotlControlLayer,
-                  YowParallelLayer((AxolotlSendLayer, AxolotlReceivelayer)),
-                  YowParallelLayer(YowStackBuilder.getProtocolLayers(**self.modules)), self.app)
+        if self.wiring == "full":
+            # the library's own default layers: network, segments, noise, coder, logger, axolotl, protocol layers
+            layers = YowStackBuilder.getDefaultLayers(**self.modules) + (self.app,)
+        else:
+            layers = (YowNetworkLayer, YowCoderLayer, YowLoggerLayer, AxolotlControlLayer,
+                      YowParallelLayer((AxolotlSendLayer, AxolotlReceivelayer)),
+                      YowParallelLayer(YowStackBuilder.getProtocolLayers(**self.modules)), self.app)
         props = {"profile": self.profile}
         props.update(self.props)
         self.stack = YowStack(layers, reversed=False, props=props)
@@ -463,7 +468,7 @@ class Server(object):
 class World(object):
     _wid = [0]
 
-    def __init__(self, seed, strategy="uniform", batch=8, sync_disconnect=True):
+    def __init__(self, seed, strategy="uniform", batch=8, sync_disconnect=True, wiring="framed"):
         from yowsup.axolotl.manager import AxolotlManager
         World._wid[0] += 1
         self.wid = "%d_%d" % (os.getpid(), World._wid[0])
@@ -491,6 +496,13 @@ class World(object):
         self.decode_errors = []
         self.stale_writes = []
         self.delivered = []        # (phone, tag, id, type, client generation) of every stanza handed to a client
+        self.wiring = wiring
+        self.raw_out = {}          # phone -> [bytes] handshake bytes of the Noise responder waiting for delivery
+        self.peer_errors = []      # strict-peer failures: (phone, errors)
+        self.cipher_frames = []    # (phone, bytes) what really left the client in the full wiring
+        self.idle_timeouts = 0
+        self.server_static = None
+        self.chunker = None        # optional: fn(bytes) -> [chunks] for server->client bytes in the full wiring
 
     def close(self):
         from yowsup.axolotl.manager import AxolotlManager
@@ -524,7 +536,7 @@ class World(object):
             for sfx in ("", "-journal", "-wal", "-shm"):
                 if os.path.exists(wipe + sfx):
                     os.remove(wipe + sfx)
-        c = Client(self, phone, modules=old.modules, props=old.props, generation=old.generation + 1)
+        c = Client(self, phone, modules=old.modules, props=old.props, generation=old.generation + 1, wiring=old.wiring)
         self.clients[phone] = c
         self.count("restarts")
         return c
@@ -554,6 +566,8 @@ class World(object):
             client.authed = False
         if was_up:
             self.server.on_closed(client)
+        if client.phone in self.raw_out:
+            self.raw_out[client.phone] = [(x, b) for x, b in self.raw_out[client.phone] if x is not d]
         if notify:
             client.guarded(lambda: d.connectionCallbacks.onDisconnected(), "onDisconnected")
 
@@ -568,6 +582,8 @@ class World(object):
         if d.state != "up" or getattr(client, "dead", False):
             self.stale_writes.append((client.phone, d.state, len(data)))
             return
+        if client.wiring == "full":
+            return self.on_cipher_bytes(client, d, data)
         self.wire_frames.append((client.phone, data))
         try:
             t = refcodec.decode(data)
@@ -575,6 +591,28 @@ class World(object):
             self.decode_errors.append((client.phone, str(e), data[:40].hex()))
             return
         self.server.inbound.setdefault(client.phone, []).append(t)
+
+    def on_cipher_bytes(self, client, d, data):
+        """Full wiring: bytes go to this connection's Noise responder (strict in-order peer)."""
+        self.cipher_frames.append((client.phone, data))
+        srv = d.srv
+        was_err = srv.state == "error"
+        srv.feed(data)
+        out = srv.take_out()
+        if out:
+            self.raw_out.setdefault(client.phone, []).append((d, out))
+        while d.srv_seen < len(srv.received):
+            payload = srv.received[d.srv_seen]
+            d.srv_seen += 1
+            self.wire_frames.append((client.phone, payload))
+            try:
+                t = refcodec.decode(payload)
+            except refcodec.FormatError as e:
+                self.decode_errors.append((client.phone, str(e), payload[:40].hex()))
+                continue
+            self.server.inbound.setdefault(client.phone, []).append(t)
+        if srv.state == "error" and not was_err:
+            self.peer_errors.append((client.phone, list(srv.errors)))
 
     # -- scheduler --------------------------------------------------------------------------
     def enabled(self):
@@ -586,9 +624,15 @@ class World(object):
         for phone, q in self.server.inbound.items():
             if q:
                 acts.append(("srv", phone))
+        for phone, q in self.raw_out.items():
+            if q:
+                acts.append(("raw", phone))
         for phone, q in self.server.outbound.items():
             c = self.clients.get(phone)
             if q and c is not None and c.connected:
+                if c.wiring == "full" and (c.dispatcher is None or getattr(c.dispatcher, "srv", None) is None or c.dispatcher.srv.state != "transport"
+                                           or self.raw_out.get(phone)):
+                    continue    # one byte stream per connection: the handshake reply goes first
                 acts.append(("deliver", phone))
         if self.detached_pending():
             acts.append(("pump", ""))
@@ -674,6 +718,12 @@ class World(object):
                     d.state = "up"
                     c.connected = True
                     c.authed = False
+                    if c.wiring == "full":
+                        from vf import noisepeer
+                        if self.server_static is None:
+                            self.server_static = noisepeer.gen_static()
+                        d.srv = noisepeer.NoiseServer(static=self.server_static)
+                        d.srv_seen = 0
                     self.server.on_connected(c)
                     c.guarded(lambda: d.connectionCallbacks.onConnected(), "onConnected")
                     break
@@ -695,14 +745,73 @@ class World(object):
                 c.authed = True
             self.count("delivered:" + t[0])
             self.delivered.append((who, t[0], t[1].get("id"), t[1].get("type"), c.generation))
-            c.guarded(lambda: c.dispatcher.connectionCallbacks.onRecvData(frame), "receive:" + t[0])
+            if c.wiring == "full":
+                data = c.dispatcher.srv.encrypt(frame)
+                for ch in (self.chunker(data) if self.chunker else [data]):
+                    c.guarded(lambda ch=ch: c.dispatcher.connectionCallbacks.onRecvData(ch), "receive:" + t[0])
+            else:
+                c.guarded(lambda: c.dispatcher.connectionCallbacks.onRecvData(frame), "receive:" + t[0])
+        elif kind == "raw":
+            c = self.clients[who]
+            d, data = self.raw_out[who].pop(0)
+            if d is c.dispatcher and d.state == "up":
+                for ch in (self.chunker(data) if self.chunker else [data]):
+                    c.guarded(lambda ch=ch: d.connectionCallbacks.onRecvData(ch), "receive:handshake")
         elif kind == "pump":
             self.pump_one()
         elif kind == "app":
             a = self.script[self.script_pos]
             self.script_pos += 1
             self.do_action(a)
+        if self.wiring == "full" or any(c.wiring == "full" for c in self.clients.values()):
+            self.wait_threads_idle()
         return True
+
+    def undigested_input(self):
+        """Harness synchronisation only (never a verdict): bytes handed to a client that its handshake thread has not
+        taken yet. Without this a parked worker with a pending wake-up would look idle."""
+        for c in self.clients.values():
+            if c.wiring != "full" or getattr(c, "dead", False):
+                continue
+            try:
+                noise = c.stack.getLayer(2)
+                q = getattr(noise, "_incoming_segments_queue", None)
+                in_hs = noise._in_handshake() if hasattr(noise, "_in_handshake") else False
+            except Exception:
+                continue
+            if q is not None and in_hs and not q.empty():
+                return True
+        return False
+
+    def worker_starting(self, states):
+        """Harness synchronisation only: a handshake worker that was started but has not reached its run() yet."""
+        for c in self.clients.values():
+            if c.wiring != "full" or getattr(c, "dead", False):
+                continue
+            try:
+                w = getattr(c.stack.getLayer(2), "_handshake_worker", None)
+            except Exception:
+                continue
+            if w is not None and w.is_alive():
+                fr = states.get(w.name)
+                if not fr or not any(f[0] == "handshake.py" for f in fr):
+                    return True
+        return False
+
+    def wait_threads_idle(self, timeout=20.0):
+        """Full wiring only: the handshake worker threads must be parked or finished before the next scheduler step."""
+        import time
+        from vf import probes
+        t0 = time.time()
+        while True:
+            st = probes.thread_states()
+            ws = [s for n, s in st.items() if any(f[0] == "handshake.py" for f in s)]
+            if all(probes.parked_forever(s) for s in ws) and not self.undigested_input() and not self.worker_starting(st):
+                return True
+            if time.time() - t0 > timeout:
+                self.idle_timeouts += 1
+                return False
+            time.sleep(0.0002)
 
     def run(self, max_steps=20000):
         while self.steps < max_steps:
